@@ -18,9 +18,10 @@ import (
 type extTable struct {
 	entries []string
 	seen    map[string]bool
+	sprint  *encCtx
 }
 
-func newExt() *extTable { return &extTable{seen: map[string]bool{}} }
+func newExt(sp *encCtx) *extTable { return &extTable{seen: map[string]bool{}, sprint: sp} }
 
 func (e *extTable) sexp() string { return N("ext", e.entries...) }
 
@@ -77,6 +78,15 @@ func (e *extTable) resolve(q string) error {
 		if _, err := url.QueryUnescape(a); err != nil {
 			code, text = 1, err.Error()
 		}
+	case "deepeq":
+		code = e.sprint.deepEqual(a, b)
+	case "sprint":
+		// fmt.Sprintf("%v", v) of the node of the case's value with this fingerprint
+		if e.sprint != nil && !e.sprint.amb[a] {
+			if t, ok := e.sprint.sp[a]; ok {
+				code, text = 1, t
+			}
+		}
 	default:
 		return fmt.Errorf("unknown residual %q", m[1])
 	}
@@ -85,8 +95,8 @@ func (e *extTable) resolve(q string) error {
 }
 
 // askWithExt sends `head <ext> tail | impl`, answering NEED replies until the driver is satisfied.
-func askWithExt(d *Driver, build func(ext string) string) (Reply, string, error) {
-	e := newExt()
+func askWithExt(d *Driver, sp *encCtx, build func(ext string) string) (Reply, string, error) {
+	e := newExt(sp)
 	for i := 0; i < 400; i++ {
 		line := build(e.sexp())
 		r, err := d.Ask(line)
